@@ -200,3 +200,132 @@ def imputer_inputs_fail(rig, rec):
                 if not any(all(r[g] == z[g] for g in S) for r in rows):
                     return f"imputer call for subset {S} (joint strategy): the imputed values {[z[g] for g in S]} do not come from ONE stored observation"
     return None
+
+
+# ----------------------------------------------------------------------------------------------------------------
+# directed search for count-triggered behaviour: long streams, lengths around numeric constants of the changed source
+# ----------------------------------------------------------------------------------------------------------------
+class RunStat:
+    """the configured running statistic (uniform mean / exponential smoothing from zero) in exact arithmetic"""
+
+    def __init__(self, alpha):
+        self.alpha, self.v, self.n = alpha, Q(0), 0
+
+    def update(self, x):
+        self.n += 1
+        if self.alpha is None:
+            self.v = self.v + (Q(x) - self.v) / self.n
+        else:
+            self.v = (1 - self.alpha) * self.v + self.alpha * Q(x)
+        return self.v
+
+
+def spec_replay(rig):
+    """importance values / variances after every call recomputed from the RECORDED callbacks by the property's definition (Python
+    replica of the Lean spec, used only by the long-stream search where the driver would be slow)"""
+    from fractions import Fraction
+    alpha = rig.effective_alpha() if rig.dynamic else None
+    d = rig.d
+    imp = [RunStat(alpha) for _ in range(d)]
+    var = [RunStat(alpha) for _ in range(d)]
+    loss = {(y, repr(cp)): Q(Fraction(v)) for (y, cp, v) in rig.loss_table.values()}
+    model = {k: v for k, v in rig.model_table.items()}
+    out = []
+    started = False
+    mp, margl, modell = {}, RunStat(alpha), RunStat(alpha)
+    for t, rec in enumerate(rig.steps):
+        if rec["error"] is not None:
+            out.append(None)
+            continue
+        if not started:
+            started = True
+            out.append({"importance": [], "variance": []})
+            continue
+        y = rec["y"]
+        contrib = {}
+        if rig.kind == "pfi":
+            orig = loss[(y, repr(model[tuple(rec["x"])]))]
+            for c in rec["imp_calls"]:
+                f = c["subset"][0]
+                ls = [loss[(y, repr(p))] for p in c["preds"]]
+                contrib[f] = sum(ls, Q(0)) / len(ls) - orig
+        else:
+            pred = model[tuple(rec["x"])]                      # [[label, value]] sorted by label
+            ml = loss[(y, repr(pred))]
+            for l, v in pred:
+                if l not in mp:
+                    mp[l] = RunStat(alpha)
+            for l in mp:
+                mp[l].update(dict((a, Q(Fraction(b))) for a, b in pred).get(l, Q(0)))
+            raw = {l: mp[l].v for l in mp}
+            if len(raw) > 1:
+                tot = sum(raw.values(), Q(0))
+                raw = {l: (Q(0) if tot == 0 else v / tot) for l, v in raw.items()}
+            mpn = sorted([[l, rs(v)] for l, v in raw.items()])
+            prev = loss[(y, repr(mpn))]
+            margl.update(prev)
+            modell.update(ml)
+            perm = rec["perm"]
+            for f, c in zip(perm, rec["imp_calls"]):
+                labels = []
+                for p_ in c["preds"]:
+                    for l, _ in p_:
+                        if l not in labels:
+                            labels.append(l)
+                mean = sorted([[l, rs(sum((dict((a, Q(Fraction(b))) for a, b in p_).get(l, Q(0)) for p_ in c["preds"]), Q(0)) / len(c["preds"]))]
+                               for l in labels])
+                fl = loss[(y, repr(mean))]
+                contrib[f] = prev - fl
+                prev = fl
+        for f in range(d):
+            e = imp[f].update(contrib[f])
+            var[f].update((contrib[f] - e) ** 2)
+        o = {"importance": [[f, rs(imp[f].v)] for f in range(d)], "variance": [[f, rs(var[f].v)] for f in range(d)]}
+        if rig.kind == "sage":
+            off = 1 if rig.lbb else 0
+            o["marginal_loss"] = rs(margl.v + off)
+            o["model_loss"] = rs(modell.v + off)
+        out.append(o)
+    return out
+
+
+def long_stream_probe(chk, kind, files, label, identity=None):
+    """only when the modelled source changed (chk.boost > 1): streams whose length passes the integer constants of that source"""
+    if chk.boost <= 1:
+        return
+    consts = core.mine_constants(files)
+    ints = sorted({int(c) for c in consts if float(c).is_integer() and 4 <= c <= 2500})
+    lengths = sorted({c + 3 for c in ints} | {40})[-3:]
+    for L in lengths:
+        for dynamic in (True, False):
+            cfg = dict(kind=kind, d=2, dynamic=dynamic, alpha=Q(1, 2), n_inner=1, model_kind="scalar", names_kind="str",
+                       storage_kind="geom", storage_size=3, imputer_kind="joint", loss_kind="squared", lbb=False)
+            rig = explain.Rig(chk.rng, **cfg)
+            chk.stat("long_stream_probes")
+            bad = None
+            for t in range(L):
+                rec = rig.step()
+                if rec["error"] is not None:
+                    bad = (t, f"raised {rec['error']}: {rec.get('error_text')}")
+                    break
+                if identity is not None and t >= 1:
+                    f = identity(rig)
+                    if f:
+                        bad = (t, f)
+                        break
+            if bad is None:
+                spec = spec_replay(rig)
+                for t, (rec, sp) in enumerate(zip(rig.steps, spec)):
+                    if sp is None:
+                        continue
+                    diff = [k for k in sp if rec["est"].get(k) != sp[k]]
+                    if diff:
+                        bad = (t, f"{diff[0]} = {str(rec['est'].get(diff[0]))[:300]} differs from the running statistic of the recorded per-observation "
+                                  f"quantities {str(sp[diff[0]])[:300]}")
+                        break
+            chk.case({"long_stream": L, "config": cfg_desc(cfg)}, nontrivial=True, sample=False)
+            if bad:
+                t, f = bad
+                chk.violation("long-stream", f"{label} {cfg_desc(cfg)} after {t + 1} calls of a {L}-call stream: {f}"[:1500],
+                              {"config": cfg_desc(cfg), "calls": t + 1, "stream_length": L})
+                return
